@@ -220,6 +220,20 @@ pub fn run(p: &Params, rep: &mut Report) {
             }
         }
     } else {
+        // ALL lists of three over the 15 intervals with end points in {0,1,2,MAX-1,MAX}
+        let small: Vec<(u32, u32)> = iv.iter().copied().filter(|&(a, b)| [0, 1, 2, MAXC - 1, MAXC].contains(&a) && [0, 1, 2, MAXC - 1, MAXC].contains(&b)).collect();
+        let mut k = 0u64;
+        for &a in &small {
+            for &b in &small {
+                for &c in &small {
+                    k += 1;
+                    if k % p.nshards == p.shard {
+                        check_list(rep, &[a, b, c], seed);
+                        rep.eval(Some(&format!("t{:?}", [a, b, c])));
+                    }
+                }
+            }
+        }
         for _ in 0..3000 {
             let n = 1 + rng.usize(3);
             let l: Vec<(u32, u32)> = (0..n).map(|_| *rng.pick(&iv)).collect();
